@@ -221,7 +221,27 @@ def make_func(ctx: Ctx, spec: dict, flavour: str):
                 raise ctx.injected.setdefault((fid, a), Injected(fid, a))
             raise injected
 
-    if is_async:
+    if is_async and spec.get("agen"):
+        # async generator node: the executor drains it into a list; the body only runs while it is drained
+        src = f"async def {_pyname(fid)}({sig}){ret}:\n    async for _v in _impl('{fid}', {args}):\n        yield _v\n"
+
+        async def _impl(_fid, a):
+            ctx.inflight += 1
+            ctx.peak = max(ctx.peak, ctx.inflight)
+            ctx.events.append(("enter", fid))
+            try:
+                if ctx.sched is not None:
+                    await ctx.sched.park(("body", fid))
+                else:
+                    await asyncio.sleep(0)
+                a = _prep(a)
+                _pre(a)
+                yield result_for(a)
+            finally:
+                ctx.inflight -= 1
+                ctx.events.append(("exit", fid))
+
+    elif is_async:
         if coro_def:
             src = f"def {_pyname(fid)}({sig}){ret}:\n    return _impl('{fid}', {args})\n"
         else:
